@@ -1,6 +1,9 @@
 package nfs
 
 import (
+	"encoding/binary"
+	"time"
+
 	"github.com/goose-lang/primitive/disk"
 
 	"github.com/mit-pdos/go-journal/buf"
@@ -10,6 +13,7 @@ import (
 	"github.com/mit-pdos/go-nfsd/dir"
 	"github.com/mit-pdos/go-nfsd/fstxn"
 	"github.com/mit-pdos/go-nfsd/inode"
+	"github.com/mit-pdos/go-nfsd/nfstypes"
 	"github.com/mit-pdos/go-nfsd/shrinker"
 	"github.com/mit-pdos/go-nfsd/super"
 	"github.com/mit-pdos/go-nfsd/util/stats"
@@ -20,6 +24,8 @@ type Nfs struct {
 	shrinkst *shrinker.ShrinkerSt
 	// support unstable writes
 	Unstable bool
+	// write verifier: changes whenever uncommitted data may have been lost
+	verf nfstypes.Writeverf3
 	// statistics
 	stats [NUM_NFS_OPS]stats.Op
 }
@@ -44,6 +50,7 @@ func MakeNfs(d disk.Disk) *Nfs {
 		fsstate:  st,
 		shrinkst: shrinker.MkShrinkerSt(st),
 		Unstable: true,
+		verf:     mkVerf(),
 	}
 	if i.Kind == 0 {
 		nfs.makeRootDir()
@@ -133,4 +140,12 @@ func readRootInode(super *super.FsSuper) *inode.Inode {
 	buf := buf.MkBufLoad(addr, common.INODESZ*8, blk)
 	i := inode.Decode(buf, common.ROOTINUM)
 	return i
+}
+
+// A new verifier for every server instance: unstable data does not
+// survive a restart.
+func mkVerf() nfstypes.Writeverf3 {
+	var verf nfstypes.Writeverf3
+	binary.LittleEndian.PutUint64(verf[:], uint64(time.Now().UnixNano()))
+	return verf
 }
